@@ -45,4 +45,18 @@ CHECKS = {
         thorough=[R("^TestCommandsFixed$", 1, 1, 120), R("^TestCommands$", 2500, 16, 3000)],
         floors={"concurrent-commands": ("TestCommands", 0.15), "multi-target": ("TestCommands", 0.5)},
     ),
+    "C19": dict(
+        pkg="./props/c19", level="exploration",
+        rule=("rapid-generated publishing scripts: 1-8 concurrent producers, bursts of 1-3000 events of mixed types (environment, run, role, "
+              "call, integrated-service, task) for 1-4 environment/task ids, each payload tagged producer-sequence; broker (injected write "
+              "function, hook H1) scripted per batch: immediate, 0-20 ms latency, or held until released; Close requested 0-5 ms after the last "
+              "WriteEvent returned. Oracle on the batches handed to the broker: permutation of the accepted events without duplicates, "
+              "per-producer order, batch size 1..100, partition key = environment id (task id for task events), everything delivered when "
+              "Close returns, producers finish while the broker is held. Non-trivial: >=2 producers and a backlog >100 when Close is called."),
+        assumptions=["the Kafka broker is replaced by the injected write function (overlay hook H1 builds the writer exactly like NewWriterWithTopic)",
+                     "goroutine scheduling inside the writer is not owned by the harness; schedules are sampled by repetition"],
+        quick=[R("^TestWriterFixed$", 1, 1, 200), R("^TestWriter$", 40, 12, 400)],
+        thorough=[R("^TestWriterFixed$", 1, 1, 200), R("^TestWriter$", 700, 14, 3000), R("^TestWriter$", 100, 2, 3000, race=True)],
+        floors={"backlog>100": ("TestWriter", 0.2)},
+    ),
 }
